@@ -139,6 +139,19 @@ def instances(st, rnd, quick):
             chosen.add(id(p))
             p = par[id(p)]
         res.append(("repeat2:" + g["name"], gen_with(st["kids"], chosen, {id(g): 2}, False), True))
+        # repetitions that differ: one with every member, one with the required members only (both orders)
+        full_rep = gen_with(g["kids"], set(), {}, True) or minimal_instance(g["kids"])
+        min_rep = minimal_instance(g["kids"])
+        if full_rep != min_rep:
+            base = gen_with(st["kids"], chosen, {id(g): 1}, False)
+            one = gen_with(st["kids"], chosen, {id(g): 1}, False)
+            # splice: find the group's minimal content inside the base instance and replace it by the two variants
+            for k in range(len(base) - len(min_rep) + 1):
+                if base[k:k + len(min_rep)] == min_rep:
+                    res.append(("repeat_mixed_full_min:" + g["name"], base[:k] + full_rep + min_rep + base[k + len(min_rep):], True))
+                    res.append(("repeat_mixed_min_full:" + g["name"], base[:k] + min_rep + full_rep + base[k + len(min_rep):], True))
+                    res.append(("repeat_mixed_3:" + g["name"], base[:k] + full_rep + min_rep + full_rep + base[k + len(min_rep):], True))
+                    break
         res.append(("repeat3full:" + g["name"], gen_with(st["kids"], chosen, {id(g): 3}, True), True))
         # nested repetition: the group and one repeatable group inside it
         inner = [k for k in all_nodes({"kids": g["kids"]}) if k["kind"] == "GRP" and k["max"] != 1]
